@@ -2,7 +2,7 @@ D = "internal/filter/filterstorage"
 
 CHECK = dict(
     level="fault_enumeration",
-    level_text="Fault enumeration plus generated search: (grid) every fault kind (connection closed, hang before headers, hang mid-body, 404, 500, empty body, body over the size limit, short body with larger Content-Length, truncated chunked body) at every URL (rule-list index, three rule lists, service index, two safe-search lists, three hash lists) after a successful round and before a recovery round, at a rule list without a previous version, every kind of invalid/duplicate/nil index entry at every position, and every content defect of both indexes, is run against one real filterstorage.Default + three hashprefix.Filter fed by one scripted HTTP server; (rapid) random sequences of 1+1..6 rounds mixing those faults, lists entering/leaving the index, republished versions and production-like tight contexts. After every round the version each list serves (from verdicts on self-identifying first/last markers) and the bytes of every cache file are compared with the set the statement allows, and a fresh storage over the cache directory must serve what the files hold. (crash) the test binary re-executes itself as a child that refreshes against a dribbling server and is SIGKILLed at a generated instant; every cache file must equal the previous or the new complete version and a fresh storage must serve it.",
+    level_text="Fault enumeration plus generated search: (grid) every fault kind (connection closed, hang before headers, hang mid-body, 404, 500, empty body, body over the size limit by 1, 7 and limit octets in three forms (announced Content-Length, chunked without Content-Length, close-delimited without Content-Length), short body with larger Content-Length, truncated chunked body) at every URL (rule-list index, three rule lists, service index, two safe-search lists, three hash lists) after a successful round and before a recovery round, at a rule list without a previous version, every kind of invalid/duplicate/nil index entry at every position, and every content defect of both indexes, is run against one real filterstorage.Default + three hashprefix.Filter fed by one scripted HTTP server; (rapid) random sequences of 1+1..6 rounds mixing those faults, lists entering/leaving the index, republished versions and production-like tight contexts. After every round the version each list serves (from verdicts on self-identifying first/last markers) and the bytes of every cache file are compared with the set the statement allows, and a fresh storage over the cache directory must serve what the files hold. (crash) the test binary re-executes itself as a child that refreshes against a dribbling server and is SIGKILLed at a generated instant; every cache file must equal the previous or the new complete version and a fresh storage must serve it.",
     level_note="Kill instants are sampled (server event + microseconds, or a delay), not enumerated; durability against power loss (fsync ordering) is not observable. A 200 response carrying a complete but invalid index (not JSON, entry of the wrong JSON type, service entry with an invalid id) is treated as a complete download for the byte clause; for verdicts only 'previous or valid-part-of-new' is demanded.",
     technique="property-based testing (rapid) + bounded-exhaustive fault grid: scripted fault sequences against a version-membership oracle on verdicts and cache-file bytes; SIGKILL of a self-re-executed child at generated instants",
     assumptions=[
@@ -12,7 +12,7 @@ CHECK = dict(
     ],
     units=[
         dict(name="filterstorage", dir=D, src="C13/filterstorage", runs=[
-            dict(name="grid", run="^TestVerifC13FaultGrid$", quick=0, thorough=0, shards_quick=2, shards_thorough=2, timeout=600),
+            dict(name="grid", run="^TestVerifC13FaultGrid$", quick=0, thorough=0, shards_quick=3, shards_thorough=3, timeout=600),
             dict(name="faults", run="^TestVerifC13FaultSequences$", quick=300, thorough=6000,
                  shards_quick=3, shards_thorough=8, timeout_quick=300, timeout_thorough=1500),
             dict(name="crash", run="^TestVerifC13CrashPoints$", quick=40, thorough=600,
